@@ -25,15 +25,20 @@ def run(ctx):
     loops = [n for n in gi.node.body if isinstance(n, (ast.For, ast.While))]
     ctx.require(len(loops) == 1, "_get_inherited_sections: worklist loop not found")
     lp = loops[0]
+    it = lp.iter if isinstance(lp, ast.For) else None
+    if isinstance(it, ast.Call) and dotted(it.func) == "enumerate" and it.args:
+        it = it.args[0]
     if isinstance(lp, ast.For):
-        fifo_shape = A.unparse(lp.iter) == wl
+        walks_front_to_back = it is not None and A.unparse(it) == wl
     else:
-        fifo_shape = any(A.call_attr(c) == "popleft" and A.unparse(c.func.value) == wl for c in A.calls(lp))
-    ctx.require(fifo_shape or any(A.call_attr(c) in ("pop", "insert", "appendleft") for c in A.calls(lp)), "_get_inherited_sections: worklist idiom not understood")
+        walks_front_to_back = any(A.call_attr(c) == "popleft" and A.unparse(c.func.value) == wl for c in A.calls(lp))
     ops = [(A.call_attr(c), c) for c in A.calls(lp) if isinstance(c.func, ast.Attribute) and A.unparse(c.func.value) == wl]
-    grow = [c for o, c in ops if o == "append"]
-    lifo = [c for o, c in ops if o in ("insert", "appendleft", "pop", "reverse") or (o == "extend" and False)]
-    ctx.check("R1", gi, fifo_shape and len(grow) >= 2 and not lifo, f"fifo-worklist:{[o for o, _ in ops]}", "newly found sections are appended at the tail of the worklist being walked front to back (breadth-first)",
+    slice_stores = [n for n in A.walk(lp) if isinstance(n, ast.Subscript) and isinstance(n.ctx, ast.Store) and A.unparse(n.value) == wl]
+    ops += [("slice-insert", n) for n in slice_stores]
+    grow = [c for o, c in ops if o in ("append", "extend")]
+    lifo = [c for o, c in ops if o in ("insert", "appendleft", "pop", "reverse", "slice-insert")]
+    ctx.require(walks_front_to_back or lifo, "_get_inherited_sections: worklist idiom not understood")
+    ctx.check("R1", gi, walks_front_to_back and len(grow) >= 1 and not lifo, f"fifo-worklist:{[o for o, _ in ops]}", "newly found sections are appended at the tail of the worklist being walked front to back (breadth-first)",
               f"the worklist is manipulated with {[o for o, _ in ops]}: sections are no longer visited breadth-first, so a deeper definition can win over a nearer one", node=lp)
     ret = A.returns(gi.node)[-1]
     ctx.check("R1", gi, f"for (name, stack) in {wl}" in A.unparse(ret.value).replace("for name, stack in", "for (name, stack) in") and "_section_data(name, stack[0])" in A.unparse(ret.value), "result-in-visit-order", "the result lists the sections in visiting order, each represented by the front of its stack")
